@@ -190,6 +190,26 @@ pub fn c16q_compact_and_selfs() {
 	like::<bool, bool, 4>(&f, &f);
 }
 
+/// derived types: `T: EncodeLike<Box<T>>` etc. must hold for derived T too, incl. repr(transparent) newtypes with a
+/// compact field (whose boxed / array forms decode through the in-place decode_into path)
+#[kani::proof]
+#[kani::unwind(19)]
+pub fn c16q_derived_boxed_forms() {
+	use crate::gen_derive::{STransCompact, SMixed3, ETuple};
+	let v = STransCompact::sym(0);
+	let w = STransCompact(v.0);
+	like::<STransCompact, Box<STransCompact>, 8>(&v, &Box::new(w));
+	let w = STransCompact(v.0);
+	like::<STransCompact, Rc<STransCompact>, 8>(&v, &Rc::new(w));
+	let w2 = [STransCompact(v.0), STransCompact(v.0)];
+	like::<[&STransCompact; 2], [STransCompact; 2], 12>(&[&v, &v], &w2);
+	like::<STransCompact, STransCompact, 8>(&v, &v);
+	let m = SMixed3::sym(0);
+	let m2 = SMixed3 { f0: m.f0, f1: m.f1, f2: m.f2 };
+	like::<&SMixed3, SMixed3, 12>(&&m, &m2);
+	like::<SMixed3, Arc<SMixed3>, 12>(&m, &Arc::new(m2));
+}
+
 /// negative twin: u16 "like" u32 must FAIL
 #[kani::proof]
 #[kani::unwind(8)]
